@@ -370,7 +370,7 @@ class Fn:
 
     def call(self, n, env, ind):
         f = n.func
-        if n.keywords:
+        if n.keywords and not (isinstance(f, ast.Attribute) and f.attr == "quantize"):
             fail(n, "keyword arguments")
         fname = None
         if isinstance(f, ast.Name):
@@ -412,9 +412,17 @@ class Fn:
                 return f"(if {b} {rel} {a} then {b} else {a})", ta
             if fname == "sum":
                 return self.sum_call(n, env, ind)
+            if fname == "isinstance" and len(args) == 2 and isinstance(args[0], ast.Name) and getattr(args[1], "id", None) in ("Decimal", "int"):
+                # decided by the static type of the translated signature
+                ta = env.get(args[0].id)
+                if ta in ("int", "dec"):
+                    return ("true" if (ta == "dec") == (args[1].id == "Decimal") else "false"), "bool"
+                fail(n, f"isinstance() of a {ta}")
             fail(n, f"call of '{fname}' (not a translated function or supported builtin)")
         # ---- method calls on locals
         if isinstance(f, ast.Attribute) and fname is None:
+            if f.attr == "quantize":
+                return self.quantize(n, env, ind)
             if f.attr == "keys" and not n.args:
                 d, td = self.expr(f.value, env, ind)
                 if isinstance(td, tuple) and td[0] == "dict":
@@ -441,6 +449,42 @@ class Fn:
             self.uses_pow = True
             cxs += "dpow "
         return self.effect(ind, f"{sig.lean_name} {cxs}" + " ".join(terms), sig.ret)
+
+    def quantize(self, n, env, ind):
+        """`x.quantize(Decimal(f"1e{k}") | Decimal(<int or "literal">) [, rounding=decimal.ROUND_*])`  ↦  `Py.quantize mode x k`"""
+        x, tx = self.expr(n.func.value, env, ind)
+        if tx != "dec":
+            fail(n, f"quantize of a {tx}")
+        mode = "halfEven"      # the context default
+        for kw in n.keywords:
+            r = kw.value
+            rn = r.attr if isinstance(r, ast.Attribute) else getattr(r, "id", None)
+            if kw.arg != "rounding" or rn not in ("ROUND_HALF_UP", "ROUND_HALF_EVEN", "ROUND_DOWN"):
+                fail(n, "quantize with an unsupported keyword / rounding mode")
+            mode = {"ROUND_HALF_UP": "halfUp", "ROUND_HALF_EVEN": "halfEven", "ROUND_DOWN": "down"}[rn]
+        if len(n.args) != 1 or not (isinstance(n.args[0], ast.Call) and getattr(n.args[0].func, "id", None) == "Decimal" and len(n.args[0].args) == 1):
+            fail(n, "quantize to something other than Decimal(…)")
+        e = n.args[0].args[0]
+        if isinstance(e, ast.JoinedStr):
+            # f"1e{k}"
+            v = e.values
+            if not (len(v) == 2 and isinstance(v[0], ast.Constant) and v[0].value in ("1e", "1E") and isinstance(v[1], ast.FormattedValue)
+                    and v[1].conversion == -1 and v[1].format_spec is None):
+                fail(n, 'quantize pattern is not Decimal(f"1e{k}")')
+            k, tk = self.expr(v[1].value, env, ind)
+            if tk != "int":
+                fail(n, f"quantize exponent of type {tk}")
+        elif isinstance(e, ast.Constant) and type(e.value) is int:
+            k = "(0 : Int)"
+        elif isinstance(e, ast.Constant) and isinstance(e.value, str):
+            from decimal import Decimal
+            try:
+                k = f"({Decimal(e.value).as_tuple().exponent} : Int)"
+            except Exception:
+                fail(n, f"quantize to Decimal({e.value!r})")
+        else:
+            fail(n, "quantize to a non-literal exponent")
+        return self.effect(ind, f"Py.quantize Py.Rounding.{mode} {x} {k}", "dec")
 
     def sum_call(self, n, env, ind):
         """`sum(d.values())` and `sum([e for k, v in d.items()])`: left fold starting from int 0 — the first
@@ -749,6 +793,7 @@ class Unit:
         # that become extra leading parameters of the generated definition (pure inputs; if the text changes in the
         # source the expression is no longer recognised and the translation fails loudly)
         self.reads = reads or {}
+        self.uses = []           # other units whose translated functions may be called (their generated module is imported)
         self.sigs = {}
         self.const_values = {}
 
@@ -792,6 +837,8 @@ class Unit:
         with open(path) as f:
             tree = ast.parse(f.read(), path)
         defs, failures = [], []
+        for u in self.uses:
+            self.sigs.update(u.sigs)
         for name, ptypes in self.funcs:
             self.sigs[name] = Sig(name, self.prefix + name, list(ptypes.items()))
         consts = {}
@@ -834,7 +881,8 @@ class Unit:
                 f"-- translated: {', '.join(ok) if ok else '(none)'}"]
         if failures:
             head.append(f"-- NOT translated: {', '.join(n for n, _ in failures)}")
-        text = "\n".join(head + ["import Demeter.PyPrelude", "namespace Demeter.Py", "set_option linter.unusedVariables false", ""]) \
+        imports = ["import Demeter.PyPrelude"] + [f"import Demeter.Gen.Py{u.module}" for u in self.uses]
+        text = "\n".join(head + imports + ["namespace Demeter.Py", "set_option linter.unusedVariables false", ""]) \
             + "\n\n".join(defs) + "\n\nend Demeter.Py\n"
         return text, failures
 
@@ -884,6 +932,22 @@ UNITS.append(Unit("GmxMarket", "demeter/gmx/market.py", [
     "self.mint_burn_fee_basis_points": ("mint_burn_fee_basis_points", I),
     "self.tax_basis_points": ("tax_basis_points", I),
 }))
+
+
+DERIBIT_HELPER = Unit("DeribitHelper", "demeter/deribit/helper.py", [
+    ("round_decimal", {"num": D, "exponent": I}),
+], prefix="deribit_")
+UNITS.append(DERIBIT_HELPER)
+DERIBIT_MARKET = Unit("DeribitMarket", "demeter/deribit/market.py", [
+    ("get_trade_fee", {"amount": D, "total_premium": D}),
+    ("get_deliver_fee", {"amount": D, "total_premium": D}),
+], cls="DeribitOptionMarket", consts=("MAX_FEE_RATE",), prefix="deribit_", reads={
+    "self.token_config.trade_fee_rate": ("trade_fee_rate", D),
+    "self.token_config.delivery_fee_rate": ("delivery_fee_rate", D),
+    "self.decimal": ("fee_decimal", I),
+})
+DERIBIT_MARKET.uses = [DERIBIT_HELPER]
+UNITS.append(DERIBIT_MARKET)
 
 
 def run(write=True, only=None):
